@@ -46,10 +46,18 @@ fn programs(input: &[u8], which: u64) -> Prog {
 
 struct Outcome { status_ready_under_lock: Option<String>, received: Vec<u16>, display: Vec<u8>, kbd_left: Vec<u8>, steps: u64, ended: &'static str, kbdr_under_lock: u64, ddr_under_lock: u64, held_steps: u64, status_under_lock: u64 }
 
-fn run_sched(p: &Prog, input: &[u8], sched: &dyn Fn(u64) -> Hold) -> Option<Outcome> {
+fn run_sched(p: &Prog, input: &[u8], sched: &dyn Fn(u64) -> Hold) -> Option<Outcome> { run_sched_p(p, input, sched, false, false) }
+/// `poison_kbd` / `poison_disp`: the other thread (the one feeding the keyboard / draining the display) died while holding the
+/// buffer's write guard. The lock is poisoned but free, and the data it protects is intact.
+fn run_sched_p(p: &Prog, input: &[u8], sched: &dyn Fn(u64) -> Hold, poison_kbd: bool, poison_disp: bool) -> Option<Outcome> {
     let mut sim = Simulator::new(SimFlags { machine_init: MachineInitStrategy::Known { value: 0 }, ..Default::default() });
-    let kb = BufferedKeyboard::default(); kb.get_buffer().write().unwrap().extend(input.iter().copied()); sim.device_handler.set_keyboard(kb.clone());
-    let ds = BufferedDisplay::default(); sim.device_handler.set_display(ds.clone());
+    let kb = BufferedKeyboard::default();
+    if poison_kbd { let b = kb.get_buffer().clone(); let inp = input.to_vec(); let _ = std::thread::spawn(move || { let mut g = b.write().unwrap(); g.extend(inp.iter().copied()); panic!("keyboard feeder dies holding the buffer lock"); }).join(); if !kb.get_buffer().is_poisoned() { return None; } }
+    else { kb.get_buffer().write().unwrap().extend(input.iter().copied()); }
+    sim.device_handler.set_keyboard(kb.clone());
+    let ds = BufferedDisplay::default();
+    if poison_disp { let b = ds.get_buffer().clone(); let _ = std::thread::spawn(move || { let _g = b.write().unwrap(); panic!("display reader dies holding the buffer lock"); }).join(); if !ds.get_buffer().is_poisoned() { return None; } }
+    sim.device_handler.set_display(ds.clone());
     let ast = lc3_ensemble::parse::parse_ast(&p.text).ok()?;
     let obj = lc3_ensemble::asm::assemble(ast).ok()?;
     sim.load_obj_file(&obj).ok()?;
@@ -82,8 +90,8 @@ fn run_sched(p: &Prog, input: &[u8], sched: &dyn Fn(u64) -> Hold) -> Option<Outc
         if was_trap_return && !sim.psr().privileged() { let caller = sim.mem[sim.pc.wrapping_sub(1)].get(); if caller == 0xF020 || caller == 0xF023 { o.received.push(sim.reg_file[reg(0)].get()); } }
         if w == 0xF025 && sim.pc == pc0 && sim.instructions_run == i0 && sim.frame_stack.len() == d0 { o.ended = "halt"; break; }
     }
-    o.display = ds.get_buffer().read().unwrap().clone();
-    o.kbd_left = kb.get_buffer().read().unwrap().iter().copied().collect();
+    o.display = ds.get_buffer().read().unwrap_or_else(|e| e.into_inner()).clone();
+    o.kbd_left = kb.get_buffer().read().unwrap_or_else(|e| e.into_inner()).iter().copied().collect();
     Some(o)
 }
 
@@ -228,6 +236,19 @@ fn run(ctx: &mut Ctx) {
     // phase 4: devices driven directly with a contending thread (this is what runs under Miri and TSan)
     let n = ctx.tier.pick_exact(40, 400);
     ctx.cases(4, n, |ctx, rng, _| { device_level(ctx, rng, 400); });
+    // phase 5: poisoned locks (the thread on the other side of a buffer panicked while holding its write guard): nothing holds the
+    // lock any more, so every byte must still be delivered exactly once
+    let n = ctx.tier.pick(60, 3_000);
+    ctx.cases(5, n, |ctx, rng, idx| {
+        let len = 1 + rng.usize(6);
+        let input: Vec<u8> = (0..len).map(|_| 0x21 + rng.below(0x5d) as u8).collect();
+        let p = programs(&input, idx);
+        let (pk, pd) = match idx % 3 { 0 => (true, false), 1 => (false, true), _ => (true, true) };
+        let Some(o) = run_sched_p(&p, &input, &|_| Hold::None, pk, pd) else { ctx.count("poison-setup-failed"); return };
+        ctx.nontrivial(crate::rng::hash_bytes(format!("{input:?}{idx}").as_bytes()));
+        let desc = format!("no lock held; poisoned: keyboard {pk}, display {pd}");
+        if account(ctx, &p, &input, &o, &desc) { ctx.count(if pk && pd { "runs.poisoned.both" } else if pk { "runs.poisoned.keyboard" } else { "runs.poisoned.display" }); }
+    });
 }
 
 /// Direct device workload: no Simulator involved, so it is cheap enough for Miri.
@@ -266,6 +287,7 @@ fn guard(m: &Merged, _t: Tier) -> Vec<String> {
     let mut out = vec![];
     for k in ["exhaustive.programs", "pairs.programs", "random.programs", "steps.lock-held", "steps.lock-held.status-read", "steps.lock-held.data-access", "bytes.received", "bytes.displayed", "device-level.ok"] { need(m, &mut out, k, 10); }
     for p in ["getc-out-puts", "in", "puts-putsp"] { need(m, &mut out, &format!("runs.exactly-once.{p}"), 50); }
+    for k in ["runs.poisoned.keyboard", "runs.poisoned.display", "runs.poisoned.both"] { need(m, &mut out, k, 5); }
     if m.c("threaded.exactly-once") + m.c("threaded.bytes-lost-under-contention") < 10 { out.push("fewer than 10 threaded runs".into()); }
     out
 }
